@@ -67,6 +67,38 @@ class Ref:
         return "&%r" % (self.cell[0],)
 
 
+class Closure:
+    def __init__(self, path, captured):
+        self.path = path
+        self.captured = list(captured)
+
+    def __repr__(self):
+        return "closure(%s)" % self.path.split("::")[-1]
+
+
+OPT = "std::option::Option"
+RES = "std::result::Result"
+
+
+def _some(v):
+    return Enum(OPT, 1, "Some", [v])
+
+
+def _none():
+    return Enum(OPT, 0, "None", [])
+
+
+def _ok(v):
+    return Enum(RES, 0, "Ok", [v])
+
+
+def _err(v):
+    return Enum(RES, 1, "Err", [v])
+
+
+_COMBINATOR = re.compile(r"^(?:std|core)::(option::Option|result::Result)::<.*>::(\w+)$")
+
+
 def _bits_to_int(v, ty):
     n = int(v)
     widths = {"i8": 8, "i16": 16, "i32": 32, "i64": 64, "i128": 128, "isize": 64}
@@ -237,6 +269,8 @@ class Interp:
                 return Struct(rv["adt"], ops, rv["fields"])
             if rv["ak"] == "tuple":
                 return tuple(ops)
+            if rv["ak"] == "closure":
+                return Closure(rv["def"], ops)
             raise Unsupported("aggregate " + rv["ak"])
         if k == "bin":
             a = self._operand(body, env, rv["a"])
@@ -301,6 +335,28 @@ class Interp:
                     # "any value that is none of the constants the function mentions": outside every literal range
                     return False
             raise Unsupported("range test on %r / %r" % (r, x))
+        # Option / Result combinators of the standard library: their meaning is fixed, so `match x { Some(v) => v, None => d }`
+        # and `x.unwrap_or(d)` evaluate alike
+        m = _COMBINATOR.match(name)
+        if m:
+            r = self._combinator(m.group(2), args, depth)
+            if r is not NotImplemented:
+                return r
+        # the `?` operator on Option / Result
+        if re.search(r"^<std::(option::Option|result::Result)<.*> as std::ops::Try>::branch$", name):
+            x = deref(args[0])
+            if isinstance(x, Enum) and x.vname in ("Some", "Ok"):
+                return Enum("std::ops::ControlFlow", 0, "Continue", [x.fields[0]])
+            if isinstance(x, Enum) and x.vname in ("None", "Err"):
+                return Enum("std::ops::ControlFlow", 1, "Break", [x])
+        if re.search(r"^<std::(option::Option|result::Result)<.*> as std::ops::FromResidual<.*>>::from_residual$", name):
+            x = deref(args[0])
+            if isinstance(x, Enum) and x.vname in ("None", "Err"):
+                return x
+        if re.search(r"^<(.*) as std::convert::From<\1>>::from$", name):
+            return args[0]
+        if re.search(r"ops::Fn(Once|Mut)?<.*>>::call(_once|_mut)?$", name) and len(args) == 2 and isinstance(args[1], tuple):
+            return self._apply(args[0], list(args[1]), depth)
         # log statements are not part of a function's decision: the `tracing` macros guard their body with level /
         # callsite tests; evaluating those tests to "disabled" skips the body
         if _LOGGING.search(name) or _LOGGING.search(f["fn"]):
@@ -309,6 +365,74 @@ class Interp:
         if target is not None and depth < self.max_depth:
             return self.run(target, args, depth + 1)
         raise Unsupported("call to %s" % name)
+
+
+def _interp_apply(self, f, args, depth):
+    f = deref(f)
+    if isinstance(f, Closure):
+        target = self.F.bodies.get(f.path)
+        if target is None or depth >= self.max_depth + 2:
+            raise Unsupported("closure body %s" % f.path)
+        return self.run(target, [Struct("closure", f.captured)] + list(args), depth + 1)
+    if isinstance(f, tuple) and len(f) == 2 and f[0] == "fn":
+        path = f[1]
+        mm = re.search(r"(option::Option|result::Result)::<.*>::(Some|Ok|Err)$", path)
+        if mm:
+            return {"Some": _some, "Ok": _ok, "Err": _err}[mm.group(2)](args[0])
+        target = self.F.bodies.get(path)
+        if target is not None and depth < self.max_depth + 2:
+            return self.run(target, list(args), depth + 1)
+    raise Unsupported("application of %r" % (f,))
+
+
+def _interp_combinator(self, meth, args, depth):
+    x = deref(args[0]) if args else None
+    if not isinstance(x, Enum) or x.vname not in ("Some", "None", "Ok", "Err"):
+        return NotImplemented
+    has = x.vname in ("Some", "Ok")
+    v = x.fields[0] if x.fields else None
+    ap = lambda f, a: self._apply(f, a, depth)
+    if meth == "unwrap_or":
+        return v if has else args[1]
+    if meth == "unwrap_or_else":
+        return v if has else ap(args[1], [] if x.vname == "None" else [v])
+    if meth in ("is_some", "is_ok"):
+        return has
+    if meth in ("is_none", "is_err"):
+        return not has
+    if meth == "map":
+        return (_some if x.vname == "Some" else _ok)(ap(args[1], [v])) if has else x
+    if meth == "map_err":
+        return x if has else _err(ap(args[1], [v]))
+    if meth == "and_then":
+        return ap(args[1], [v]) if has else x
+    if meth == "or_else":
+        return x if has else ap(args[1], [] if x.vname == "None" else [v])
+    if meth == "or":
+        return x if has else args[1]
+    if meth == "ok":
+        return _some(v) if x.vname == "Ok" else _none()
+    if meth == "err":
+        return _some(v) if x.vname == "Err" else _none()
+    if meth == "ok_or":
+        return _ok(v) if has else _err(args[1])
+    if meth == "ok_or_else":
+        return _ok(v) if has else _err(ap(args[1], []))
+    if meth == "map_or":
+        return ap(args[2], [v]) if has else args[1]
+    if meth == "map_or_else":
+        return ap(args[2], [v]) if has else ap(args[1], [] if x.vname == "None" else [v])
+    if meth in ("is_some_and", "is_ok_and"):
+        return ap(args[1], [v]) if has else False
+    if meth == "is_none_or":
+        return ap(args[1], [v]) if has else True
+    if meth in ("as_ref", "as_mut", "as_deref", "copied", "cloned"):
+        return x
+    return NotImplemented
+
+
+Interp._apply = _interp_apply
+Interp._combinator = _interp_combinator
 
 
 def deref(v):
